@@ -1,4 +1,4 @@
-CONSTANTS Impl = "asbuilt"
+CONSTANTS Impls = {"asbuilt"}
           AllowPartial = TRUE
           DoEmit = FALSE
           Strata <- StrataSmall
